@@ -315,6 +315,7 @@ const (
 	FaultNodeNull  = "node:null"      // {"node": null}
 	FaultWrong     = "wrong-shape"    // a string where an object is expected
 	FaultErrsNode  = "errs+node:null" // graphql errors together with {"node": null}
+	FaultBadElem   = "bad-element"    // a well-formed reply, except that the list a dependent step joins onto ends in a string
 )
 
 type Controller struct {
@@ -329,6 +330,8 @@ type Controller struct {
 	Effects     map[string]int
 	Outstanding int
 	MaxOut      int
+	// BadKeys: per service, the root response key whose list a dependent step joins onto (FaultBadElem)
+	BadKeys map[string]string
 }
 
 type ctxKey struct{}
@@ -494,6 +497,21 @@ func (s *Service) query(ctx context.Context, in *graphql.QueryInput, recv interf
 	*out = it.exec(op.SelectionSet, nil, rt)
 	if fault == FaultPartial {
 		return errList("partial failure at "+s.Name, c.Entries)
+	}
+	if fault == FaultBadElem {
+		injected := false
+		if l, ok := (*out)[ctl.BadKeys[s.Name]].([]interface{}); ok && len(l) > 0 {
+			(*out)[ctl.BadKeys[s.Name]] = append(append([]interface{}{}, l...), "oops")
+			injected = true
+		}
+		if !injected {
+			// nothing to spoil in this reply: the call did not fail after all
+			ctl.mu.Lock()
+			if c.Seq < len(ctl.Calls) {
+				ctl.Calls[c.Seq].Fault, ctl.Calls[c.Seq].Entries = "", 0
+			}
+			ctl.mu.Unlock()
+		}
 	}
 	return nil
 }
